@@ -449,6 +449,34 @@ def compare_texts(fnode):
   return sorted(set(ast.unparse(n) for n in own_nodes(fnode) if isinstance(n, ast.Compare) and len(n.ops) == 1 and type(n.ops[0]) in _MIRROR))
 
 
+def tuple_assign_texts(fnode):
+  return sorted(set(ast.unparse(n) for n in own_nodes(fnode) if isinstance(n, ast.Assign) and len(n.targets) == 1
+                    and isinstance(n.targets[0], ast.Tuple) and isinstance(n.value, ast.Tuple)))
+
+
+def split_new_tuple_assigns(fnode, base_texts, stats):
+  """a, b = X, Y (not in the reference tree) -> a = X; b = Y, when that is the same thing: plain distinct names as targets,
+  none of which is read by any of the right-hand sides."""
+  for b in _blocks(fnode):
+    i = 0
+    while i < len(b):
+      st = b[i]
+      if (isinstance(st, ast.Assign) and len(st.targets) == 1 and isinstance(st.targets[0], ast.Tuple) and isinstance(st.value, ast.Tuple)
+          and len(st.targets[0].elts) == len(st.value.elts) and ast.unparse(st) not in base_texts
+          and all(isinstance(t, ast.Name) for t in st.targets[0].elts)):
+        names = [t.id for t in st.targets[0].elts]
+        reads = set(n.id for v in st.value.elts for n in ast.walk(v) if isinstance(n, ast.Name))
+        if len(set(names)) == len(names) and not (set(names) & reads):
+          new = [ast.Assign(targets=[ast.Name(id=nm, ctx=ast.Store())], value=v, lineno=st.lineno + k * 1e-5, col_offset=st.col_offset)
+                 for k, (nm, v) in enumerate(zip(names, st.value.elts))]
+          b[i:i + 1] = new
+          stats['tuples_split'] = stats.get('tuples_split', 0) + 1
+          i += len(new)
+          continue
+      i += 1
+  ast.fix_missing_locations(fnode)
+
+
 def ifexp_texts(fnode):
   return sorted(set(ast.unparse(n) for n in own_nodes(fnode) if isinstance(n, ast.IfExp)))
 
@@ -541,6 +569,10 @@ def rename_function(fnode, rel, qualname, base_funcs, stats):
         break
   except Exception as e:
     stats['temps_error'] = repr(e)
+  try:
+    split_new_tuple_assigns(fnode, set(base.get('tuple_assigns', [])), stats)
+  except Exception as e:
+    stats['tuple_error'] = repr(e)
   try:
     lower_new_ifexps(fnode, set(base.get('ifexps', [])), stats)
   except Exception as e:
@@ -1152,7 +1184,7 @@ def baseline_of_tree(trees):
 
   def fn(node, rel, q):
     params, locs = local_defs_fp(node)
-    functions[rel + '::' + q] = {'params': params, 'locals': [[nm, fps] for nm, fps in locs], 'compares': compare_texts(node), 'augs': aug_texts(node), 'ifexps': ifexp_texts(node)}
+    functions[rel + '::' + q] = {'params': params, 'locals': [[nm, fps] for nm, fps in locs], 'compares': compare_texts(node), 'augs': aug_texts(node), 'ifexps': ifexp_texts(node), 'tuple_assigns': tuple_assign_texts(node)}
     for n in own_nodes(node):
       if isinstance(n, (ast.FunctionDef, ast.AsyncFunctionDef)):
         fn(n, rel, q + '.' + n.name)
